@@ -267,6 +267,11 @@ def gen_C07(g, tier):
     for w in (2, 3, 4, 6):
         for n1, n2 in ((6, 2), (6, 4), (9, 3), (3, 9), (2, 6), (5, 5), (4, 1), (1, 4)):
             cs.append(Case('o.c07.retable %d %d %d' % (w, n1, n2), 'orc', 'rectangular-reconfigured', check=small_hex_check(1e-15)))
+    # the inner modulator refuses (throws) exactly when a new impulse is due; the caller recovers and carries on
+    for w in (1, 2, 3, 4, 7):
+        for first in (1, 2, 3):
+            for tries in (1, 2, 3):
+                cs.append(Case('o.c07.refusal %d %d %d %d' % (w, first, w * (first + 3) + g.randint(0, w), tries), 'orc', 'inner-modulator-refuses-at-impulse-boundary'))
     # the modulation index changes after the decorating model was built (and, in half of the cases, queried)
     for kind in ('square', 'boxcar', 'plain'):
         for w, n in ((2, 2), (3, 2), (4, 6), (6, 4), (5, 5)):
